@@ -183,7 +183,10 @@ def sampler(run, repo, f):
     if loops:
         body = loops[0].body
         calls = [c for s in body for c in ast.walk(s) if isinstance(c, ast.Call) and norm(c.func) == 'clifford_rotate_signless']
-        run.check(len(calls) == 1 and [norm(a) for a in calls[0].args] == [loops[0].target.id, 'gs'], 'R10.undo', f, 'clifford_rotate_signless(g, gs)',
+        lt = loops[0].target.id if isinstance(loops[0].target, ast.Name) else None
+        if lt is None:
+            run.undecided('R10.undo', f, loops[0].target, 'the undo loop does not run over single generators')
+        run.check(lt is None or (len(calls) == 1 and [norm(a) for a in calls[0].args] == [lt, 'gs']), 'R10.undo', f, 'clifford_rotate_signless(g, gs)',
                   'each generator is applied to the whole block')
         # result must reach gs (in-place kernel: alias; functional kernel: stored back)
         st = body[0]
